@@ -86,6 +86,7 @@ func (P) Gen(r *core.Rand, tier string, emit func([]string)) {
 		}
 		emit(golib.GenH1Read(r, maxBody))
 		emit(golib.GenH1Streams(r, 3000))
+		emit(golib.GenH1Write(r, 3000))
 	}
 	genWire(r, tier, emit)
 }
